@@ -123,6 +123,11 @@ GEN = {
                                          "ssh://" + _host(r), "javascript:" + _word(r)]),
     "URI_NOSCHEME": lambda r: r.choice([_host(r) + "/" + _word(r), "//" + _host(r) + "/p", "/just/" + _word(r), "www." + _host(r)]),
     "URI_NOHOST": lambda r: r.choice(["http:///" + _word(r), "http:", "https:/" + _word(r), "ftp:" + _word(r), "https://"]),
+    "URI_EXOTIC": lambda r: r.choice(["https://user:pw@" + _host(r) + "/x", "http://:@" + _host(r) + "/", "ftp://anonymous@" + _host(r) + "/pub", "http://[::1]:8080/p",
+                                      "http://127.0.0.1:65535/", "http://" + _host(r) + ":99999/", "http://" + _host(r) + "/%zz", "http://" + _host(r) + "/a b",
+                                      "http://" + _host(r) + "#frag", "HTTP://" + _host(r).upper() + "/", "http://" + _host(r) + "?", "https://" + _host(r) + "/%41%c3%a9",
+                                      "http://xn--bcher-kva.example/", "http://bücher.example/", "http://" + _host(r) + "/\\path", "http://a..b/", "http://-a.b/",
+                                      "https://" + "a" * 300 + ".example/"]),
     "LENIENT_INT": lambda r: r.choice(["+5", "007", "1_0", " 5", "5 ", "٣", "-0", "+0", "\t12\n"]),
     "LENIENT_FLOAT": lambda r: r.choice([".5", "5.", " 1.5 ", "1_0.5", "+1.5", "1e+2", "1.e2", "-.5", "٣.٥"]),
     "LENIENT_TIME": lambda r: r.choice(["12:30", "T12:30:00", "24:00:00", "123045", "12:30:45Z", "12:30:45+01:00", "12", "12:30:45,5"]),
